@@ -137,7 +137,7 @@ Proof. exact ProofsFacts.value_range_fact. Qed.
 Print Assumptions value_range_fact.
 
 Theorem value_range_shape_fact :
-  f_vr_init gen_arr = VRInitEmpty /\ f_vr_loop_ok gen_arr = true /\ f_vr_full_ok gen_arr = true /\
+  f_vr_init gen_arr = VRInitEmpty /\ f_vr_loop_ok gen_arr = true /\ f_vr_full_ok gen_arr = true /\ f_vr_no_override gen_arr = true /\
   f_rg_default_empty gen_arr = true /\ f_rg_extend_minmax gen_arr = true /\ f_rg_empty_def gen_arr = true.
 Proof. exact ProofsFacts.value_range_shape_fact. Qed.
 Print Assumptions value_range_shape_fact.
